@@ -837,10 +837,11 @@ type responseWriter struct {
 // WriteHeader captures the status code
 func (rw *responseWriter) WriteHeader(statusCode int) {
 	// The reverse proxy clears the header map after every interim (1xx)
-	// response; what was set on the way in belongs on the final response too
+	// response; what was set on the way in belongs on the final response too,
+	// ahead of values the backend adds under the same name (as without a 1xx)
 	for k, v := range rw.preset {
-		if _, ok := rw.Header()[k]; !ok {
-			rw.Header()[k] = v
+		if cur := rw.Header()[k]; !hasPrefix(cur, v) {
+			rw.Header()[k] = append(append([]string{}, v...), cur...)
 		}
 	}
 	// A backend response without Content-Type must stay without one:
@@ -850,6 +851,19 @@ func (rw *responseWriter) WriteHeader(statusCode int) {
 	}
 	rw.statusCode = statusCode
 	rw.ResponseWriter.WriteHeader(statusCode)
+}
+
+// hasPrefix reports whether values starts with prefix
+func hasPrefix(values, prefix []string) bool {
+	if len(values) < len(prefix) {
+		return false
+	}
+	for i := range prefix {
+		if values[i] != prefix[i] {
+			return false
+		}
+	}
+	return true
 }
 
 // Flush implements http.Flusher so that bytes the backend flushes (chunked
